@@ -13,6 +13,8 @@ lines; at every crash point the hosts path holds the old or the new complete con
 session exactly the original non-own lines; instances side by side keep each other's lines.
 """
 import errno
+import io
+import sys
 import itertools
 import os
 import re
@@ -30,7 +32,7 @@ RULE = ("cases = (initial hosts-file content, backup present or not, host map / 
         "every crash point k of every single-instance case; a refused operation at every index of small cases; "
         "segment-level and random (thorough: exhaustive) interleavings of two instances; complete helper sessions through the real firewall.main() (fake packet-filter method and stdin: ROUTES, NSLIST, PORTS, GO, HOST lines, then EOF / read error / bad command) with the IPv4 and/or IPv6 teardown raising and with single file-system calls (chown, chmod, rename, close, write, open, stat, read of the first or a later HOST) refused, and with the helper's stderr/stdout failing (EIO, EPIPE, closed file) from a chosen point on at verbosity 0-3 through the real helpers.log/debug*; crash-recovery host tables at scale through the real firewall.main (1, 3, 16, 63, 64, 65, 70, 100, 257, 300, 1000 names, names re-announced with new addresses; file inspected while the session is up and after it ended; stored in the replay by generator parameters); histories (a helper dies between writing its temporary and the rename, optionally the admin edits the file, a new session on the same port publishes fewer hosts and restores); a case is non-trivial "
         "when a line was filtered, a backup made, a fault or crash injected, or two instances overlapped; "
-        "distinct = distinct canonical case description; every case of every kind additionally runs at a verbosity level from the rotation [0,0,3,0,2,0,13,1] (13 = -vvv with stderr/stdout failing with EIO) indexed by a per-run case counter shifted by the seed, through the real helpers.log/debug*, and is replayed at that level")
+        "distinct = distinct canonical case description; every case of every kind additionally runs under a short-write mode from a rotation (write(2) on the file the code writes transfers at most 1 / 100 / 4096 / half the bytes per call, or a size limit after which writes fail with ENOSPC; at the os.write level and underneath file objects from open / os.fdopen) and at a verbosity level from the rotation [0,0,3,0,2,0,13,1] (13 = -vvv with stderr/stdout failing with EIO) indexed by a per-run case counter shifted by the seed, through the real helpers.log/debug*, and is replayed at that level")
 MANIFEST = dict(
     level_text=("Machine-checked Lean 4 theorems (19, core Lean + Std, no sorry/axiom/native_decide) over a "
                 "statement-by-statement model of rewrite_etc_hosts / restore_etc_hosts (a resumption issuing "
@@ -117,11 +119,12 @@ def hm_tok(items):
 
 LEVELS = [0, 0, 3, 0, 2, 0, 13, 1]      # 13 = level 3 with a stderr/stdout whose write() raises EIO
 _ROT = dict(n=0, shift=0)               # per-run case counter, shifted by the check's seed (not ctx.rng)
-_CUR = dict(level=0)                    # level of the case being run
+_CUR = dict(level=0, short='none', limit_bytes=None)   # level / short-write mode of the case being run
 
 
 def rot_reset(seed):
     _ROT['n'] = 0
+    _ROT['s'] = 0
     _ROT['shift'] = seed
 
 
@@ -131,17 +134,40 @@ def next_level():
     return lv
 
 
+# Short writes as a dimension of every case: how many bytes one write(2) on a file the code writes transfers.
+# 'chunk:N' = at most N bytes per call ('half' = half of what the call offered), which write(2) may always do;
+# 'limit:N' = a file-size limit / full disk: N bytes in total go through, the call that crosses the limit is
+# short, every later one fails with ENOSPC ('half' = half of the new content).  13 entries: coprime with LEVELS.
+SHORTS = ['none', 'chunk:1', 'none', 'none', 'chunk:100', 'none', 'limit:100', 'none', 'chunk:4096', 'none',
+          'chunk:half', 'none', 'limit:half']
+_ROT['s'] = 0
+
+
+def next_short():
+    sm = SHORTS[(_ROT['s'] + _ROT['shift']) % len(SHORTS)]
+    _ROT['s'] += 1
+    return sm
+
+
 def leveled(fn):
-    """Every case kind runs at a verbosity level: taken from the rotation, or given (replay)."""
-    def wrap(*a, level=None, **k):
+    """Every case kind runs at a verbosity level and under a short-write mode: taken from the rotations,
+    or given (replay)."""
+    def wrap(*a, level=None, short=None, **k):
         if level is None:
             level = next_level()
-        old = _CUR['level']
+        if short is None:
+            short = next_short()
+        if short.startswith('limit') and fn.__name__ != 'single_case':
+            short = 'chunk' + short[5:]       # histories assume every rewrite completes: keep the transparent variant
+        old = dict(_CUR)
         _CUR['level'] = level
+        _CUR['short'] = short
+        _CUR['limit_bytes'] = None
         try:
             return fn(*a, **k)
         finally:
-            _CUR['level'] = old
+            _CUR.clear()
+            _CUR.update(old)
     wrap.__name__ = fn.__name__
     wrap.__doc__ = fn.__doc__
     return wrap
@@ -178,6 +204,34 @@ class _Verbosity:
         return False
 
 
+class _ShortRaw(io.RawIOBase):
+    """A raw file whose write() transfers what the sandbox's short-write mode allows and returns that
+    count.  A BufferedWriter on top retries the remainder (and raises when that fails); an unbuffered
+    user sees the short count."""
+
+    def __init__(self, raw, sb):
+        io.RawIOBase.__init__(self)
+        self.raw, self.sb = raw, sb
+
+    def writable(self):
+        return True
+
+    def fileno(self):
+        return self.raw.fileno()
+
+    def write(self, b):
+        b = bytes(b)
+        n = self.sb.short_take(len(b))
+        return self.raw.write(b[:n])
+
+    def close(self):
+        if not self.closed:
+            try:
+                io.RawIOBase.close(self)
+            finally:
+                self.raw.close()
+
+
 class Inst:
     """One running instance (one call of the real function) and what it is allowed to do."""
 
@@ -212,6 +266,9 @@ class Sandbox:
         self.foreign_tmp = []        # rename/move sources that were not beside the hosts file
         self.fd_names = {}           # descriptors obtained through the wrapped os.open
         self.level = _CUR['level']   # verbosity level of the case this sandbox belongs to
+        self.short = _CUR['short']   # short-write mode of the case
+        self.limit_bytes = _CUR['limit_bytes']
+        self.short_written = 0
 
     def __enter__(self):
         import sshuttle.firewall as fw
@@ -237,6 +294,10 @@ class Sandbox:
         fw.shutil = _ShProxy(self)
         fw.open = self._open
         fw.log = lambda s: None
+        self.saved_hook = sys.unraisablehook
+        if self.short.startswith('limit'):
+            # a buffered file that could not flush (disk full) complains again when it is collected
+            sys.unraisablehook = lambda u: None
         return self
 
     def __exit__(self, *a):
@@ -251,9 +312,40 @@ class Sandbox:
             else:
                 del fw.open
         finally:
+            sys.unraisablehook = self.saved_hook
             tempfile.tempdir = self.saved_tempdir
             shutil.rmtree(self.root, ignore_errors=True)
         return False
+
+    # ---- short writes
+    def short_take(self, k):
+        """How many of the k bytes offered to one write(2) go through (may raise ENOSPC)."""
+        mode, _, n = self.short.partition(':')
+        if mode == 'chunk':
+            return min(k, max(1, k // 2) if n == 'half' else int(n))
+        if mode == 'limit':
+            room = self.limit_bytes - self.short_written
+            if room <= 0 and k:
+                raise OSError(errno.ENOSPC, 'No space left on device')
+            t = min(k, room)
+            self.short_written += t
+            return t
+        return k
+
+    def open_w(self, target, mode, buffering=-1, encoding=None, errors=None, newline=None, **k):
+        """open()/os.fdopen() for writing, with the short-write mode underneath the file object."""
+        plain = self.short == 'none' or '+' in mode or k
+        if plain:
+            if isinstance(target, int):
+                return os.fdopen(target, mode, buffering, encoding, errors, newline, **k)
+            return open(target, mode, buffering, encoding, errors, newline, **k)
+        raw = _ShortRaw(io.FileIO(target, 'a' if 'a' in mode else 'x' if 'x' in mode else 'w'), self)
+        if 'b' in mode and buffering == 0:
+            return raw
+        buf = io.BufferedWriter(raw)
+        if 'b' in mode:
+            return buf
+        return io.TextIOWrapper(buf, encoding=encoding, errors=errors, newline=newline)
 
     # ---- raw access (never through the patched names)
     def tmp(self, port):
@@ -374,7 +466,7 @@ class Sandbox:
         sb = self
         nm = self.name(path)
         if 'w' in mode or 'a' in mode or '+' in mode:
-            f = self.call('openw %s' % nm, lambda: open(path, mode, *a, **k))
+            f = self.call('openw %s' % nm, lambda: self.open_w(path, mode, *a, **k))
             return _WFile(sb, f, nm)
         # open(...).read() is one operation
         inst, refused = self.gate()
@@ -462,10 +554,25 @@ class _OsProxy:
         self._sb.fd_names[fd] = nm
         return fd
 
-    def fdopen(self, fd, *a, **k):
-        f = os.fdopen(fd, *a, **k)
+    def fdopen(self, fd, mode='r', *a, **k):
         nm = self._sb.fd_names.pop(fd, None)
-        return f if nm is None else _WFile(self._sb, f, nm)
+        if nm is None or not ('w' in mode or 'a' in mode):
+            return os.fdopen(fd, mode, *a, **k)
+        return _WFile(self._sb, self._sb.open_w(fd, mode, *a, **k), nm)
+
+    def write(self, fd, data):
+        nm = self._sb.fd_names.get(fd)
+        if nm is None:
+            return os.write(fd, data)
+
+        def do():
+            data_ = bytes(data)
+            return os.write(fd, data_[:self._sb.short_take(len(data_))])
+        return self._sb.call('oswrite %s %d' % (nm, len(data)), do, lambda r: 'ok:%d' % r)
+
+    def close(self, fd):
+        self._sb.fd_names.pop(fd, None)
+        return os.close(fd)
 
     def stat(self, p, *a, **k):
         return self._sb.call('stat %s' % self._sb.name(p), lambda: os.stat(p, *a, **k),
@@ -745,9 +852,21 @@ def single_case(ctx, content, bak, hm, port, mode=0o644, err_at=(), crash_all=Tr
                 stale_tmp=None, latin=False, label='single'):
     """Full run (+ every crash point) of one call on a fresh sandbox; oracle on the real files."""
     case = Case(label)
-    desc = dict(level=_CUR['level'], stream='single', content=opt(content), bak=opt(bak), hm=[[n, i] for n, i in hm.items()],
+    desc = dict(level=_CUR['level'], short=_CUR['short'], stream='single', content=opt(content), bak=opt(bak), hm=[[n, i] for n, i in hm.items()],
                 port=port, mode=mode, err_at=list(err_at), kind=kind, stale_tmp=opt(stale_tmp))
     case.desc = desc
+    limited = _CUR['short'].startswith('limit')
+    if limited:
+        n_ = _CUR['short'].split(':')[1]
+        if n_ == 'half':
+            try:
+                new_text = ''.join(l + '\n' for l in expected_after(port, {} if kind == 'r' else hm, content))
+            except UnicodeDecodeError:
+                new_text = ''
+            _CUR['limit_bytes'] = max(1, len(new_text.encode('utf-8')) // 2)
+        else:
+            _CUR['limit_bytes'] = int(n_)
+        desc['limit_bytes'] = _CUR['limit_bytes']
     with Sandbox() as sb:
         sb.latin = latin
         setup_fs(sb, content, bak, mode, stale_tmp, port)
@@ -797,9 +916,13 @@ def single_case(ctx, content, bak, hm, port, mode=0o644, err_at=(), crash_all=Tr
                           'lines(after) must be the non-own lines of before, in order, then the host lines')
             if any(own(port, l) for l in py_lines(content)):
                 ctx.hist('branch:own-lines-filtered')
-    elif out != 'done':
-        # an exception left the function: the hosts path must still hold the old or the complete new content
-        pass
+    elif out.startswith('raised') and not moved and not renamed_ok and after != content:
+        # a failure was reported before anything was renamed: the previous version must still be there
+        violation(ctx, 'C14:rewrite:failed-but-file-changed', desc, dict(hosts=b2s(content)),
+                  dict(hosts=b2s(after), outcome=out), 'a rewrite that reports a failure leaves the previous file',
+                  kind='faults')
+    if _CUR['short'] != 'none':
+        ctx.hist('short-writes:' + _CUR['short'])
     # --- oracle 2: atomicity at every operation boundary of the full run
     if not moved:
         final_ok = [content] + ([after] if renamed_ok else [])
@@ -843,6 +966,8 @@ def single_case(ctx, content, bak, hm, port, mode=0o644, err_at=(), crash_all=Tr
                 case.add('tmp %d %s' % (port, hx(stale_tmp)), 'ok')
             line, res, _o, _out = run_single(sb, kind, dict(hm), port, crash_at=k)
             case.add(line, res)
+    if limited:
+        case.ins, case.outs = [], []     # oracle only: the model has no disk-full answer for a write
     return case
 
 
@@ -850,7 +975,7 @@ def single_case(ctx, content, bak, hm, port, mode=0o644, err_at=(), crash_all=Tr
 def session_case(ctx, content, updates, port):
     """One instance: update history then restore (optionally other instances' serial activity between)."""
     case = Case('session')
-    desc = dict(level=_CUR['level'], stream='session', content=opt(content), updates=[list(u) for u in updates], port=port)
+    desc = dict(level=_CUR['level'], short=_CUR['short'], stream='session', content=opt(content), updates=[list(u) for u in updates], port=port)
     case.desc = desc
     hm = {}
     with Sandbox() as sb:
@@ -888,7 +1013,7 @@ def session_case(ctx, content, updates, port):
 def serial_case(ctx, content, events):
     """Several instances, rewrites not overlapping.  events: list of (port, kind, hm)."""
     case = Case('serial')
-    desc = dict(level=_CUR['level'], stream='serial', content=opt(content), events=[[p, k, [[n, i] for n, i in hm.items()]] for p, k, hm in events])
+    desc = dict(level=_CUR['level'], short=_CUR['short'], stream='serial', content=opt(content), events=[[p, k, [[n, i] for n, i in hm.items()]] for p, k, hm in events])
     case.desc = desc
     ports = sorted({p for p, _k, _h in events})
     cur = {}
@@ -965,7 +1090,7 @@ def run_threads(sb, specs, sched, finish=True):
 def inter_case(ctx, content, pre, specs, sched, label='inter'):
     """pre: serial events establishing the starting state; then the two calls of `specs` interleaved."""
     case = Case(label)
-    desc = dict(level=_CUR['level'], stream='inter', content=opt(content), pre=[[p, k, [[n, i] for n, i in hm.items()]] for p, k, hm in pre],
+    desc = dict(level=_CUR['level'], short=_CUR['short'], stream='inter', content=opt(content), pre=[[p, k, [[n, i] for n, i in hm.items()]] for p, k, hm in pre],
                 specs=[[t, k, [[n, i] for n, i in hm.items()], p] for t, k, hm, p in specs], sched=''.join(sched))
     case.desc = desc
     (ta, ka, hma, pa), (tb, kb, hmb, pb) = specs
@@ -1029,7 +1154,7 @@ def recovery_case(ctx, content, port, hm1, crash_back, hm2, admin=None, admin_ed
     its temporary behind; optionally the admin then edits the hosts file; then a NEW session on the same port
     publishes `hm2` and restores.  The stale temporary must not leak into the hosts file."""
     case = Case('recovery')
-    desc = dict(level=_CUR['level'], stream='recovery', content=opt(content), port=port, hm1=[[n, i] for n, i in hm1.items()],
+    desc = dict(level=_CUR['level'], short=_CUR['short'], stream='recovery', content=opt(content), port=port, hm1=[[n, i] for n, i in hm1.items()],
                 crash_back=crash_back, hm2=[[n, i] for n, i in hm2.items()], admin=opt(admin),
                 admin_edit=admin_edit, first_kind=first_kind)
     case.desc = desc
@@ -1182,7 +1307,7 @@ def helper_case(ctx, content, hosts, with_v4, with_v6, fail, end='eof', exc='fat
     else:
         from_rotation = False
     case = Case('helper')
-    desc = dict(level=_CUR['level'], stream='helper', content=opt(content), hosts=[list(h) for h in hosts], v4=with_v4, v6=with_v6,
+    desc = dict(level=_CUR['level'], short=_CUR['short'], stream='helper', content=opt(content), hosts=[list(h) for h in hosts], v4=with_v4, v6=with_v6,
                 fail=sorted(fail), end=end, exc=exc, setup_fails=setup_fails, fs_fail=[list(x) for x in fs_fail],
                 verbose=verbose, log_fail=list(log_fail) if log_fail else None)
     case.desc = desc
@@ -1483,6 +1608,17 @@ def gen_cases(ctx):
     cases.append(single_case(ctx, b'a\n', b'older backup\n', {'h': '1.1.1.1'}, 10, label='single-bak-present'))
     cases.append(single_case(ctx, b'a\n', None, {'h': '1.1.1.1'}, 10, stale_tmp=b'left over from a crash\n', label='single-stale-tmp'))
     cases.append(single_case(ctx, b'a\n', None, {'h': '1.1.1.1'}, 10, mode=0o600, label='single-mode'))
+    # short writes on the file the code writes (os.write level or file-object level, whichever it uses):
+    # per-call chunks, and a size limit / full disk after which writes fail with ENOSPC
+    big = ''.join('10.%d.%d.%d bighost%03d.example.net # line %d\n' % (i // 250, i % 250, i % 7, i, i)
+                  for i in range(110)).encode()          # > 4096 bytes
+    for sm, cont, crash in (('chunk:1', b'a\nb\n', True), ('chunk:100', big, False), ('chunk:4096', big, False),
+                            ('chunk:half', big, False), ('limit:1', b'a\nb\n', True), ('limit:100', big, False),
+                            ('limit:half', big, False), ('limit:4096', big, False)):
+        cases.append(single_case(ctx, cont, None, {'h': '1.1.1.1', 'g': '2.2.2.2'}, 10, crash_all=crash,
+                                 label='short-write', short=sm))
+    cases.append(single_case(ctx, big, None, {'h': '1.1.1.1'}, 10, crash_all=False, kind='r', label='short-write',
+                             short='limit:half'))
     # generated single cases with all crash points
     for i in range(ctx.scale(40, 600)):
         port = rng.choice([1, 10, 99, 1024, 12300, 12299, 65535])
@@ -1750,31 +1886,32 @@ def replay(ctx, rep):
     if st == 'single':
         single_case(ctx, _unopt(case['content']), _unopt(case['bak']), _hm(case['hm']), case['port'],
                     mode=case.get('mode', 0o644), err_at=tuple(case.get('err_at', ())), kind=case.get('kind', 'w'),
-                    stale_tmp=_unopt(case.get('stale_tmp', 'N')), level=case.get('level', 0))
+                    stale_tmp=_unopt(case.get('stale_tmp', 'N')), level=case.get('level', 0),
+                    short=case.get('short', 'none'))
     elif st == 'session':
         session_case(ctx, _unopt(case['content']), [tuple(u) for u in case['updates']], case['port'],
-                     level=case.get('level', 0))
+                     level=case.get('level', 0), short=case.get('short', 'none'))
     elif st == 'serial':
         serial_case(ctx, _unopt(case['content']), [(p, k, _hm(h)) for p, k, h in case['events']],
-                    level=case.get('level', 0))
+                    level=case.get('level', 0), short=case.get('short', 'none'))
     elif st == 'inter':
         inter_case(ctx, _unopt(case['content']), [(p, k, _hm(h)) for p, k, h in case['pre']],
-                   [(t, k, _hm(h), p) for t, k, h, p in case['specs']], case['sched'], level=case.get('level', 0))
+                   [(t, k, _hm(h), p) for t, k, h, p in case['specs']], case['sched'], level=case.get('level', 0), short=case.get('short', 'none'))
     elif st == 'helper':
         helper_case(ctx, _unopt(case['content']), [tuple(h) for h in case['hosts']], case['v4'], case['v6'],
                     set(case['fail']), end=case['end'], exc=case.get('exc', 'fatal'),
                     setup_fails=case.get('setup_fails', False),
                     fs_fail=[tuple(x) for x in case.get('fs_fail', [])], verbose=case.get('verbose', 0),
                     log_fail=tuple(case['log_fail']) if case.get('log_fail') else None,
-                    level=case.get('level', 0))
+                    level=case.get('level', 0), short=case.get('short', 'none'))
     elif st == 'scale':
         scale_case(ctx, _unopt(case['content']), case['n'], case['reannounce'], with_v6=case.get('v6', False),
-                   level=case.get('level', 0))
+                   level=case.get('level', 0), short=case.get('short', 'none'))
     elif st == 'recovery':
         recovery_case(ctx, _unopt(case['content']), case['port'], _hm(case['hm1']), case['crash_back'],
                       _hm(case['hm2']), _unopt(case.get('admin', 'N')) if case.get('admin_edit') else None,
                       admin_edit=case.get('admin_edit', False), first_kind=case.get('first_kind', 'w'),
-                      level=case.get('level', 0))
+                      level=case.get('level', 0), short=case.get('short', 'none'))
     else:
         return False, 'unknown replay stream %r' % st
     new = ctx.violations[n0:]
